@@ -31,6 +31,7 @@ theorem reports_step {s s' : St} {l : Label} (hs : step s l = some s')
   | e a =>
     obtain ⟨_, _, _, _, _, _, _, _, _, hspc⟩ := e_step_frame (step_e hs)
     rw [hspc]; exact hq
+  | g a => rw [g_step_frame (step_wd hs)]; exact hq
   | s a =>
     have hd := step_s hs
     cases a with
